@@ -14,9 +14,10 @@ pub fn min_edge_cut<I>(edges: I, source: usize, sink: usize)
 {
     let edges: BTreeSet<_> = edges.into_iter().collect();
 
-    let neighbors = by_first(
+    let mut neighbors = by_first(
         edges.iter().flat_map(|&(v, w)| [(v, w), (w, v)])
     );
+    neighbors.entry(source).or_default();
 
     let mut path_edges = BTreeSet::new();
 
